@@ -9,6 +9,7 @@
    hold in every reachable executor state. No new definitions enter the model. *)
 From Coq Require Import List Arith ZArith QArith Qabs Bool Lia Permutation.
 Import ListNotations.
+From Eudoxia Require Import Proofs.PriorityPoolRunFacts Proofs.SimReachFacts.
 From Eudoxia Require Import Num.Rnd64 Model.Types Model.Dag Model.Lifecycle Model.Timing Model.Container
   Model.Pool Model.Executor Model.Sched Model.Simulator
   Proofs.LifecycleFacts Proofs.ExecLifeFacts Proofs.LedgerFacts Proofs.SuspendFacts
@@ -215,6 +216,92 @@ Corollary counts_ok_every_reachable C l n cpu ram s k :
 Proof.
   intros E W R. destruct (hist_ok_every_reachable C l n cpu ram s E W R) as (_ & _ & _ & H).
   intros a. exact (H k a).
+Qed.
+
+(* ... in particular in every state of every simulation run under every shipped scheduler
+   (Proofs/SimReachFacts.v: such a state is [reach_exec_r]-reachable) *)
+Theorem hist_ok_sim C a l np cpu ram t s :
+  cf_static C = mk_static l -> dags_wf l ->
+  sim_reach C a 0%Z (init_sim C np cpu ram) t s -> hist_ok (cf_static C) (e_world (sm_exec s)).
+Proof.
+  intros E W R. eapply hist_ok_every_reachable; [exact E|exact W|]. eapply sim_reach_exec_r; eauto.
+Qed.
+
+Corollary counts_ok_sim C a l np cpu ram t s k :
+  cf_static C = mk_static l -> dags_wf l ->
+  sim_reach C a 0%Z (init_sim C np cpu ram) t s ->
+  StatsFacts.counts_ok (cf_static C) (e_world (sm_exec s)) k.
+Proof.
+  intros E W R. destruct (hist_ok_sim C a l np cpu ram t s E W R) as (_ & _ & _ & H).
+  intros x. exact (H k x).
+Qed.
+
+Corollary counts_ok_sim_all C a l np cpu ram t s :
+  cf_static C = mk_static l -> dags_wf l ->
+  sim_reach C a 0%Z (init_sim C np cpu ram) t s ->
+  forall k, StatsFacts.counts_ok (cf_static C) (e_world (sm_exec s)) k.
+Proof. intros E W R k. eapply counts_ok_sim; eauto. Qed.
+
+(* the world a scheduler hands to the executor (all its Assignment objects created) as well *)
+Theorem counts_ok_sched_world C a l np cpu ram t s newp ss' w' susps asgs k :
+  cf_static C = mk_static l -> dags_wf l ->
+  sim_reach C a 0%Z (init_sim C np cpu ram) t s ->
+  sched_step C a (sm_sched s) (sm_exec s) (sm_results s) newp = Ok (ss', w', susps, asgs) ->
+  StatsFacts.counts_ok (cf_static C) w' k.
+Proof.
+  intros E W R Sch.
+  assert (Hr : PriorityRunFacts.pipes_in_range (cf_static C))
+    by (rewrite E; apply PriorityRunFacts.mk_static_pipes_in_range; exact W).
+  destruct (sim_reach_exec_r_from C Hr a (init_estate C np cpu ram) _ _ _ _ R
+              (sim_range_init C a np cpu ram) (rr_init C _)) as [_ (Lw & P & RR & G)].
+  destruct (sched_step_range C Hr _ _ _ _ _ _ _ _ _ Sch P RR G) as [_ RA].
+  pose proof (sched_step_world _ _ _ _ _ _ _ _ _ _ Sch) as Emk.
+  pose proof (mk_assignments_steps_in _ _ _ _ Emk RA Lw) as SI.
+  assert (Hh : hist_ok (cf_static C) w').
+  { eapply steps_in_hist; [| |exact SI|].
+    - rewrite E. apply static_ok_mk_static. exact W.
+    - rewrite E. apply ClosedLoopFacts.mk_static_ops_known. exact W.
+    - eapply hist_ok_sim; eauto. }
+  destruct Hh as (_ & _ & _ & H). intros x. exact (H k x).
+Qed.
+
+(* C06 "never while any operator is unfinished", without the histogram hypothesis *)
+Theorem never_while_unfinished_sim C a l np cpu ram t s k :
+  cf_static C = mk_static l -> dags_wf l ->
+  sim_reach C a 0%Z (init_sim C np cpu ram) t s ->
+  (is_successful (cf_static C) (e_world (sm_exec s)) k = true <->
+   forall o, In o (pd_order (pipe_of (cf_static C) k)) -> st_of (e_world (sm_exec s)) o = Completed).
+Proof. intros E W R. apply StatsFacts.never_while_unfinished. eapply counts_ok_sim; eauto. Qed.
+
+(* C06 "in the tick in which its last operator completes", without the two histogram hypotheses and
+   without the busy-owner hypothesis (all three hold in every state of a run) *)
+Theorem finish_tick_has_result_sim C a l np cpu ram t s newp s1 lg p ss' w' :
+  cf_static C = mk_static l -> dags_wf l ->
+  sim_reach C a 0%Z (init_sim C np cpu ram) t s ->
+  sim_tick C a t s newp = Ok (s1, lg) ->
+  sched_step C a (sm_sched s) (sm_exec s) (sm_results s) newp = Ok (ss', w', tl_susp lg, tl_asgs lg) ->
+  (forall q c, In q (e_pools (sm_exec s1)) -> In c (p_active q) ->
+     StatsFacts.mono_container (cf_static C) c) ->
+  is_successful (cf_static C) w' p = false ->
+  is_successful (cf_static C) (e_world (sm_exec s1)) p = true ->
+  In p (sm_outstanding s) \/ In p newp ->
+  tl_results lg <> [] /\ In p (tl_finished lg).
+Proof.
+  intros E W R T Sch Mono F1 F2 Hp.
+  assert (R1 : sim_reach C a 0%Z (init_sim C np cpu ram) (t + 1)%Z s1) by (econstructor; eauto).
+  eapply StatsFacts.finish_tick_has_result; [exact T|exact Sch| | |exact Mono| |exact F1|exact F2|exact Hp].
+  - exact (counts_ok_sched_world C a l np cpu ram t s newp ss' w' _ _ p E W R Sch).
+  - exact (counts_ok_sim C a l np cpu ram _ s1 p E W R1).
+  - intros o Ho. eapply owned_busy; [|exact Ho]. eapply sim_reach_exec_r; eauto.
+Qed.
+
+(* non-vacuity: the run of SimReachFacts.SimReachExamples, state after three ticks under every scheduler *)
+Example counts_ok_sim_applies a k :
+  StatsFacts.counts_ok (cf_static SimReachExamples.Cx) (e_world (sm_exec (SimReachExamples.mid a))) k.
+Proof.
+  destruct (SimReachExamples.mid_reach a) as [t R].
+  exact (counts_ok_sim SimReachExamples.Cx a SimReachExamples.Lx 2 10%Z 10%Q t _ k eq_refl
+           SimReachExamples.Lx_wf R).
 Qed.
 
 (* ---------------------------------------------------------------------------------------- *)
